@@ -282,3 +282,42 @@ Proof.
   - unfold do_send. destruct (sfaults w) as [|[e|] r]; cbn; repeat split; auto; discriminate.
   - repeat split; auto; discriminate.
 Qed.
+
+(* ---- GetRules: the ACK, then one AUDIT_LIST_RULES message per rule, then NLMSG_DONE, each found
+   through any admissible noise ---- *)
+Inductive rule_stream (q : N) : list str -> list revent -> list revent -> Prop :=
+| rs_done d script rest : delivers q NLMSG_DONE d script rest -> rule_stream q [] script rest
+| rs_rule r rs script mid rest : delivers q AUDIT_LIST_RULES r script mid -> rule_stream q rs mid rest -> rule_stream q (r :: rs) script rest.
+
+Lemma list_rules_is_not_done : (AUDIT_LIST_RULES =? NLMSG_DONE) = false.
+Proof. vm_compute. reflexivity. Qed.
+
+Lemma delivers_shrinks q ty d script rest : delivers q ty d script rest -> (length rest < length script)%nat.
+Proof. intros (ns & ts & _ & _ & _ & ->). rewrite !app_length. cbn [length]. lia. Qed.
+Lemma rule_stream_length q rs script rest : rule_stream q rs script rest -> (length rs + length rest < length script)%nat.
+Proof.
+  induction 1 as [d script rest Hd | r rs script mid rest Hd Hs IH].
+  - apply delivers_shrinks in Hd. cbn [length]. lia.
+  - apply delivers_shrinks in Hd. cbn [length]. lia.
+Qed.
+
+Lemma collect_rules_stream q rs script rest : q <> 0 -> rule_stream q rs script rest ->
+  forall acc fuel, (length rs < fuel)%nat -> collect_rules fuel q script acc = (inr (rev acc ++ rs), rest).
+Proof.
+  intros Hq. induction 1 as [d script rest Hd | r rs script mid rest Hd Hs IH]; intros acc fuel Hf.
+  - destruct fuel as [|f]; [cbn in Hf; lia|]. cbn [collect_rules]. rewrite (reply_delivers _ _ _ _ _ Hq Hd). rewrite N.eqb_refl. rewrite app_nil_r. reflexivity.
+  - destruct fuel as [|f]; [cbn in Hf; lia|]. cbn [collect_rules]. rewrite (reply_delivers _ _ _ _ _ Hq Hd).
+    rewrite list_rules_is_not_done, N.eqb_refl. rewrite IH by (cbn [length] in Hf; lia). cbn [rev]. rewrite <- app_assoc. reflexivity.
+Qed.
+
+Theorem get_rules_verdict s w errno mid rs rest : no_fault w -> next_seq s <> 0 -> (0 <= errno < 2^31)%Z ->
+  answers (next_seq s) errno (rscript w) mid -> rule_stream (next_seq s) rs mid rest ->
+  result_of (snd (cstep s w OGetRules)) = if Z.eqb errno 0 then RRules rs else RFail (EErrno errno).
+Proof.
+  intros Hf Hs He Ha Hr. cbn [cstep]. unfold get_rules.
+  destruct (do_send_ok s w Hf) as (w' & Hd & Hrs). rewrite Hd. rewrite Hrs.
+  pose proof (ack_verdict _ _ _ _ Hs He Ha) as HV. destruct (reply (next_seq s) (rscript w)) as [r rest']. destruct HV as [HV ->].
+  rewrite HV. destruct (Z.eqb errno 0); [|reflexivity].
+  rewrite (collect_rules_stream _ _ _ _ Hs Hr) by (pose proof (rule_stream_length _ _ _ _ Hr); lia).
+  reflexivity.
+Qed.
